@@ -1253,3 +1253,59 @@ def tbl16_aggregator_operations(ctx):
                   '%s: accumulate uses %s, combine uses %s (expected %s), neutral start %s%s'
                   % (marker, sorted(acc), sorted(comb), want, 'ok' if unit_ok else 'WRONG',
                      '' if one else ', COUNT does not add 1'), '%s:%d' % (f, fns['accumulate']['l'] if 'accumulate' in fns else 0))
+
+
+# ---------------------------------------------------------------------------- TBL-17
+def tbl17_constant_translation_is_inverse(ctx):
+    ctx.rule('TBL-17', 'a WHERE constant is translated into the domain of an offset-encoded column by the '
+                       'inverse of the decode op, applied once: decode adds the offset, so the constant '
+                       'has the offset subtracted - no other arithmetic on the way (a rounded, shifted '
+                       'or doubly adjusted constant selects the wrong rows only for some constants)',
+             floor=2)
+    P = ctx.P
+    from mirlib.dataflow import DefUse, base_local
+    from mirlib.program import norm_callee
+    for name in ('encode_int', 'encode_float'):
+        F = P.one('mem_store::codec::Codec::' + name)
+        F.parse()
+        du = DefUse(F)
+        arith = []
+        for bid, blk in F.blocks.items():
+            if blk.cleanup:
+                continue
+            for s in blk.stmts:
+                if s.kind == 'assign':
+                    m = re.match(r'^(Add|Sub|Mul|Div|Rem|Shl|Shr|BitAnd|BitOr|BitXor)(WithOverflow|Unchecked)?\((.*), (.*)\)$', s.rhs.strip())
+                    if m:
+                        arith.append((m.group(1), s, m.group(3), m.group(4)))
+                    elif s.rhs.strip().startswith('Neg('):
+                        arith.append(('Neg', s, s.rhs, ''))
+            t = blk.term
+            if t is not None and t.kind == 'call':
+                f = norm_callee(t.func or '')
+                mm = re.search(r'(?:f64|f32|i64|i128)::(floor|ceil|round|trunc|fract|abs|wrapping_sub|wrapping_add|'
+                               r'checked_sub|checked_add|saturating_sub|saturating_add|mul_add|rem_euclid|div_euclid)$', f)
+                if mm:
+                    arith.append((mm.group(1), t, t.args[0] if t.args else '', t.args[1] if len(t.args) > 1 else ''))
+        subs = [a for a in arith if a[0] in ('Sub', 'wrapping_sub', 'checked_sub')]
+        others = [a for a in arith if a[0] not in ('Sub', 'wrapping_sub', 'checked_sub')]
+        # index arithmetic of `self.ops[0]` (bounds checks) is Lt/len, not in the list above
+        ok = len(subs) == 1 and not others
+        detail = 'arithmetic in the body: %s' % [a[0] for a in arith]
+        if ok:
+            op, site, a, b = subs[0]
+            xa = du.origins(base_local(a))['args'] if base_local(a) is not None else set()
+            xparam = F.args[1][0] if len(F.args) > 1 else None
+            yb = du.origins(base_local(b)) if base_local(b) is not None else {'stmts': [], 'args': set()}
+            y_from_op = any(re.search(r'as Add\)\.1', st.rhs or '') for (_b, st) in yb['stmts']) or \
+                re.search(r'as Add\)\.1', b or '') is not None
+            ok = xparam in xa and y_from_op
+            detail = 'constant - offset: minuend from the constant parameter (%s), subtrahend from the Add op (%s)' % (
+                xparam in xa, y_from_op)
+        site = (subs[0][1] if subs else (others[0][1] if others else F.blocks[0].term))
+        ctx.check('TBL-17', 'Codec::%s|offset-subtracted-once' % name, ok, detail, where_(site))
+
+
+def where_(x):
+    from .common import where as _w
+    return _w(x)
